@@ -79,6 +79,20 @@ func runC02(r *Report, tier string) {
 			}
 		}
 		o2.check(bad == "", fmt.Sprintf("reads %v", loads), "the signed bytes depend on "+bad)
+		// control footprint: the builder's call tree reads no unprotected /
+		// signature field of the receiver, so its outcome cannot depend on them
+		if raw := P.terms.of(s.content); raw.Op == "res" && raw.Args[0].Op == "call" {
+			if bf := P.calleeOfTerm(raw.Args[0]); bf != nil && bf.Signature.Recv() != nil {
+				var badf []string
+				reads := P.fieldsRead(bf, 0)
+				for _, f := range reads {
+					if strings.HasSuffix(f, "Unprotected") || f == "Signature" || f == "Signatures" {
+						badf = append(badf, f)
+					}
+				}
+				r.ob("R02.2", shortFn(s.fn)+":control-footprint", bf, nil, "the ToBeSigned builder's call tree reads no unprotected header or signature field of its receiver").check(len(badf) == 0, fmt.Sprintf("receiver fields read by %s: %v", shortFn(bf), reads), "the outcome of "+shortFn(bf)+" can depend on "+strings.Join(badf, ", "))
+			}
+		}
 		// the positive half: protected bytes and payload are read
 		need := []string{"$0.Headers.RawProtected", "$0.Headers.Protected"}
 		if kind == "Sign1Message" {
